@@ -958,6 +958,20 @@ def id_list_cases(prefix="il"):
                 if kind == "sack":
                     ops.append("SR 1")
                 cases.append(("%s-%s-%s" % (prefix, kind, "_".join(combo)), ops))
+    # one StreamingPull control message that acknowledges AND modifies: every pair (acked ids, modified ids with
+    # seconds) over the two live leases - an id that is acknowledged in a message is gone whatever the same message
+    # asks for its deadline (the acks of a message are applied before its modifications)
+    for acks in (["^1"], ["^2"], ["^1", "^2"]):
+        for mods in (["^1"], ["^2"], ["^1", "^2"], ["^2", "^1"]):
+            for secs in itertools.product([0, 30], repeat=len(mods)):
+                ops = ["SEED 2", "CT " + T, "CS %s %s 10 ~" % (Sn, T), "PUB %s 3 61 0 62 0 63 0" % T,
+                       "SO 1 %s 10 0 10" % Sn, "SR 1", "SS 1 - 0 0 1 ^0 0 0", "STATS " + Sn,
+                       "SS 1 - 0 0 %d %s %d %s %d %s" % (len(acks), " ".join(acks), len(mods), " ".join(mods), len(secs),
+                                                        " ".join(map(str, secs))),
+                       "SR 1", "STATS " + Sn, "PULL %s 10 1" % Sn, "ADV %d" % (10200 * MS), "SR 1", "STATS " + Sn,
+                       "PULL %s 10 1" % Sn, "ADV %d" % (25000 * MS), "SR 1", "STATS " + Sn, "PULL %s 10 1" % Sn, "SR 1"]
+                cases.append(("%s-sackmod-%s-%s-%s" % (prefix, "".join(a[1] for a in acks), "".join(m[1] for m in mods),
+                                                      "_".join(map(str, secs))), ops))
     return cases
 
 
@@ -1081,6 +1095,14 @@ def cs_cases(seed, n, prefix="cs"):
                     live.remove(c)
                     blocked.discard(c)
                 continue
+            if 0.07 <= x < 0.12 and len(live) >= 2 and not blocked and not deleted:
+                # a wake-up whose pull is queued and whose consumer then goes away: publish, poll one consumer (the
+                # woken one sends its pull), drop it before the runtime runs
+                c = rng.choice(live)
+                ops += ["XT", "PUBN %s 1 78" % T, "XQ %d" % c, "XD %d" % c]
+                live.remove(c)
+                occ = 1
+                continue
             if x < 0.16 and len(live) < 5 and not deleted:
                 nid += 1
                 live.append(nid)
@@ -1176,7 +1198,7 @@ def modify_batch_cases(prefix="mb"):
             if len(set(secs)) == 1:
                 continue
             ops = ["SEED %d" % (n % 11), "CT " + T, "CS %s %s 10 ~" % (Sn, T), "PUB %s 3 61 0 62 0 63 0" % T,
-                   "SO 1 %s 10 0 10" % Sn, "SR 1", "ADV %d" % (1000 * MS),
+                   "SO 1 %s 10 0 10" % Sn, "SR 1", "ADV %d" % ((1000 if (n // 2) % 2 else 8000) * MS),
                    "SS 1 - 0 0 0 %d %s %d %s" % (len(ids), " ".join(ids), len(secs), " ".join(map(str, secs))),
                    "SR 1", "STATS " + Sn]
             for adv in (5100, 5000, 3000, 8000, 10100, 12000):
